@@ -3,7 +3,7 @@
    (Update/UpdateFacts.v, Update/UpdateProofs.v, Update/UpdateThms.v), all about the model that the
    correspondence run executes (Update/UpdateDefs.v: step / send_client / ...). *)
 From LV Require Import Region.RegionDefs Region.RegionProofs Update.UpdateDefs Update.UpdateFacts
-     Update.UpdateProofs0 Update.UpdateProofs Update.UpdateThms.
+     Update.UpdateProofs0 Update.UpdateProofs Update.UpdateThms Update.NewFB Update.Slices.
 Local Open Scope Z_scope.
 
 (* ---------------------------------------------------------------- the invariant
@@ -116,6 +116,20 @@ Theorem C02_idle_incremental_silent : forall st c x y w h,
   tick_client st c1 = Some (c1, None) /\
   exists c', send_client st c1 = Some (c', None).
 Proof. exact idle_incremental_silent. Qed.
+
+(* ---------------------------------------------------------------- progressive slicing *)
+(* with progressiveSliceHeight > 0 a bounded number of rounds - one round = an incremental request
+   for the whole screen followed by rfbSendFramebufferUpdate, nothing else in between, no copy
+   pending - empties the modified region and makes the client's picture equal to the framebuffer:
+   at most  floor(H / slice) + 2  (>= ceil(H/slice) + 1)  rounds, wherever the sweep currently is
+   (progressiveSliceY arbitrary >= 0).  The framebuffer height fits a C int. *)
+Theorem C02_slices_converge : forall st c,
+  Inv st -> In c (sClients st) -> sH st <= INT_MAX -> 0 < sSliceH st ->
+  no_pix (cC c) -> cUseNewFB c && cNewFBPending c = false -> cScaled c = None -> 0 <= cSliceY c ->
+  exists c', slice_rounds st c (Z.to_nat (sH st / sSliceH st + 2)) = Some c' /\
+             no_pix (cM c') /\
+             forall x y, inS (sW st) (sH st) x y -> pic_get (cPic c') x y = fb_for st c x y.
+Proof. exact slices_converge_inv. Qed.
 
 (* ---------------------------------------------------------------- the deferral timer *)
 (* deferring never loses an update: whatever deferUpdateTime and the clock (gettimeofday) are - also
@@ -234,3 +248,13 @@ Proof.
   split; [|reflexivity]. unfold f9_region. apply rgn_of_rects_wf. repeat constructor; cbn; lia.
 Qed.
 
+
+(* slices_converge: a client in the middle of a sweep (slice height 3, progressiveSliceY = 3, modified
+   pixels above and below) *)
+Example C02_slices_nonvacuous :
+  exists st c, run (init_state 12 8 4)
+                   [OpAddClient; OpSetEncodings 0 true true false false; OpRequest 0 false 0 0 12 8; OpTick 0;
+                    OpKnobs 50 3; OpDraw 0 0 12 8 7; OpRequest 0 true 0 0 12 8; OpTick 0] = Some st /\
+               In c (sClients st) /\ sSliceH st = 3 /\ cSliceY c = 3 /\ cC c = [] /\
+               rgn_mem (cM c) 0 5 = true /\ cUseNewFB c && cNewFBPending c = false /\ cScaled c = None.
+Proof. vm_compute. eexists. eexists. split; [reflexivity|]. split; [left; reflexivity|]. repeat split. Qed.
